@@ -384,10 +384,10 @@ impl<I: Identifier> ParticleSwarmInit<I> {
         v_max: f64,
     ) -> ExecResult<Box<dyn Component<P>>> {
         Ok(Block::new([
-            <ParticleVelocitiesInit>::new(v_max)
+            ParticleVelocitiesInit::<I>::new(v_max)
                 .wrap_err("failed to construct particle velocities init")?,
-            <PersonalBestParticlesInit>::new(),
-            <GlobalBestParticleUpdate>::new(),
+            PersonalBestParticlesInit::<I>::new(),
+            GlobalBestParticleUpdate::<I>::new(),
         ]))
     }
 }
@@ -411,8 +411,8 @@ impl<I: Identifier> ParticleSwarmUpdate<I> {
     pub fn new_with_id<P: SingleObjectiveProblem + LimitedVectorProblem<Element = f64>>(
     ) -> Box<dyn Component<P>> {
         Block::new([
-            <PersonalBestParticlesUpdate>::new(),
-            <GlobalBestParticleUpdate>::new(),
+            PersonalBestParticlesUpdate::<I>::new(),
+            GlobalBestParticleUpdate::<I>::new(),
         ])
     }
 }
